@@ -15,7 +15,7 @@ RULE = (
     "response), subset of callbacks set, set of callbacks that raise, transport plain or TLS (records = segments, the "
     "selector sees undecrypted bytes only), optionally a loss of the connection followed by a re-established one (reconnect "
     "interval set, on_reconnect given or not); optionally on_message echoes every message back through app.send() (a callback calling "
-    "back into the API). Non-trivial: >= 2 frames in one segment, or a fragmented message, or a "
+    "back into the API); built-in loop or an external (rel-style) dispatcher. Non-trivial: >= 2 frames in one segment, or a fragmented message, or a "
     "raising callback, or TLS. Distinct = (segments, callbacks, raising set, transport)."
 )
 ORACLES = [
@@ -105,14 +105,24 @@ def run_case(case, peek=None):
         if second is not None and case.get("on_reconnect"):
             kw["on_reconnect"] = mk("on_reconnect")
         app = websocket.WebSocketApp(("wss" if case.get("secure") else "ws") + "://c13.test/app", **kw)
-        ret["r"] = app.run_forever(reconnect=interval) if second is not None else app.run_forever()
+        rk = {"reconnect": interval} if second is not None else {}
+        if case.get("external"):
+            # an external (rel-style) dispatcher: run_forever returns at once and the third-party loop calls the read callback
+            from .c15 import FakeRel
+
+            rel = FakeRel(sched)
+            ret["r"] = app.run_forever(dispatcher=rel, **rk)
+            rel.dispatch(until=sched.now + t_end + interval + 200.0)
+            ret["rel_errors"] = rel.error_log
+        else:
+            ret["r"] = app.run_forever(**rk)
 
     with simkit.installed(sched, net):
         try:
             main = sched.run(body)
         except simkit.HarnessStuck as e:
             raise HarnessError(str(e))
-    tag = "tls" if case.get("secure") else "plain"
+    tag = ("tls" if case.get("secure") else "plain") + ("+external" if case.get("external") else "")
     if sched.hang:
         obs.fail(f"{tag}|no-termination|{sched.hang[0]}", sched.hang[1])
         return _cls(obs, case)
@@ -218,9 +228,9 @@ def _cls(obs, case):
     multi = any(len(s[1]) >= 2 for s in segs)
     frag = any(not f.get("fin", 1) for s in segs for f in s[1])
     nt = multi or frag or bool(case.get("raise_in")) or case.get("secure") or case.get("second") is not None
-    obs.cls = ("tls" if case.get("secure") else "plain", f"segments:{min(len(segs), 6)}", f"multi_frame_segment:{int(multi)}", f"fragmented:{int(frag)}",
+    obs.cls = ("tls" if case.get("secure") else "plain", f"external_dispatcher:{int(bool(case.get('external')))}", f"segments:{min(len(segs), 6)}", f"multi_frame_segment:{int(multi)}", f"fragmented:{int(frag)}",
                f"raising:{len(case.get('raise_in', []))}", f"hs_segment_frames:{int(any(s[0] == 0 for s in segs))}", f"callbacks:{len(case.get('callbacks', CBS))}", f"reconnected:{int(case.get('second') is not None)}", f"echo:{int(bool(case.get('echo')))}")
-    obs.nt = repr((case.get("secure"), segs, sorted(case.get("callbacks", CBS)), sorted(case.get("raise_in", [])), case.get("second"), case.get("on_reconnect"), case.get("dangling"), case.get("echo"))) if nt else None
+    obs.nt = repr((case.get("secure"), segs, sorted(case.get("callbacks", CBS)), sorted(case.get("raise_in", [])), case.get("second"), case.get("on_reconnect"), case.get("dangling"), case.get("echo"), case.get("external"))) if nt else None
     return obs
 
 
@@ -271,7 +281,7 @@ def cases(draw):
     cbs = draw(st.one_of(st.just(CBS), st.lists(st.sampled_from(CBS), unique=True, min_size=1).map(sorted)))
     raise_in = draw(st.one_of(st.just([]), st.lists(st.sampled_from(["on_open", "on_message", "on_data", "on_ping", "on_pong"]), unique=True, max_size=3).map(sorted)))
     echo = draw(st.integers(0, 2)) == 0
-    c = {"echo": echo, "segments": segs, "callbacks": cbs, "raise_in": [r for r in raise_in if r in cbs], "secure": draw(st.booleans()), "hs_delay": draw(st.sampled_from([0.0, 0.2]))}
+    c = {"external": draw(st.integers(0, 3)) == 0, "echo": echo, "segments": segs, "callbacks": cbs, "raise_in": [r for r in raise_in if r in cbs], "secure": draw(st.booleans()), "hs_delay": draw(st.sampled_from([0.0, 0.2]))}
     if draw(st.integers(0, 3)) == 0:
         # the connection is lost and re-established (reconnect interval set): on_reconnect / on_open must precede the new connection's events
         t2 = 0.0
